@@ -31,6 +31,9 @@ type bCase struct {
 	Prefix   aCase     `json:"prefix"`
 	Threads  []bThread `json:"threads"`
 	Schedule []int     `json:"schedule"` // which runnable thread continues at each scheduling point (mod #runnable)
+	// Stall (1-based thread number, 0 = none): that thread runs first up to its first scheduling point and is then
+	// continued only when no other thread can run (a request parked in front of the shard mutex for a long time)
+	Stall int `json:"stall,omitempty"`
 }
 
 func (c *bCase) fingerprint() uint64 {
@@ -41,7 +44,7 @@ func (c *bCase) fingerprint() uint64 {
 		}
 		fmt.Fprintf(&sb, "|%d;", t.Sweep)
 	}
-	return vHash(c.Prefix.fingerprint(), sb.String(), fmt.Sprint(c.Schedule))
+	return vHash(c.Prefix.fingerprint(), sb.String(), fmt.Sprint(c.Schedule, c.Stall))
 }
 
 func bGoid() int64 {
@@ -132,6 +135,8 @@ func bRun(c *bCase, pick func(n int) int) (info bInfo, viol *aViolation, hist st
 		e.freshCmds = true
 		bCmdReuseExcluded++
 	}
+	bRemoved = map[string][]aSnapHold{}
+	bFirstReq = len(e.reqs)
 	e.logf("--- concurrent phase: %d threads", len(c.Threads))
 	s := &bSched{byGoid: map[int64]int{}, events: make(chan bEvent, 64)}
 	n := len(c.Threads)
@@ -180,6 +185,19 @@ func bRun(c *bCase, pick func(n int) int) (info bInfo, viol *aViolation, hist st
 		}
 		if len(runnable) == 0 {
 			break
+		}
+		if c.Stall > 0 && c.Stall <= n && !s.done[c.Stall-1] {
+			if step == 0 {
+				runnable = []int{c.Stall - 1}
+			} else if len(runnable) > 1 {
+				var rest []int
+				for _, i := range runnable {
+					if i != c.Stall-1 {
+						rest = append(rest, i)
+					}
+				}
+				runnable = rest
+			}
 		}
 		k := runnable[pick(len(runnable))%len(runnable)]
 		if last >= 0 && k != last {
@@ -289,6 +307,9 @@ func bSum(k *aSnapKey) int {
 }
 
 // bTransition checks one segment: what changed between two consecutive quiescent-inside snapshots.
+var bRemoved = map[string][]aSnapHold{} // per key: holders that left it without expiring (reset per run)
+var bFirstReq int                        // index of the first request of the concurrent phase
+
 func bTransition(e *aEnv, prev, cur bSnap, info *bInfo) *aViolation {
 	for id, k := range cur {
 		if bSum(k) != int(k.Locked) {
@@ -330,6 +351,60 @@ func bTransition(e *aEnv, prev, cur bSnap, info *bInfo) *aViolation {
 		}
 		if len(k.Holders) < len(p.Holders) {
 			info.removed++
+		}
+	}
+	// C01: "a hold is outstanding from its SUCCED reply until its unlock is accepted, it expires, or it is rolled back":
+	// a holder that is gone from a key needs a cause - an unlock request for THAT key bearing its LockId (or the
+	// unlock-first flag) that has been sent (its reply may still be on its way), or a deadline that has passed
+	for id, p := range prev {
+		k := cur[id]
+		still := map[[16]byte]bool{}
+		if k != nil {
+			for _, h := range k.Holders {
+				still[h.Id] = true
+			}
+		}
+		for _, h := range p.Holders {
+			if still[h.Id] {
+				continue
+			}
+			if h.EF&efUNLIMITED == 0 && h.ExpriedTime <= e.now+1 {
+				continue // expired (or about to: the sweeps run a second ahead)
+			}
+			if h.AckCount != 0xff {
+				continue // ack pending: rolled back by the ack machinery (C11)
+			}
+			bRemoved[id] = append(bRemoved[id], h)
+			// every holder that left this key without expiring needs its own unlock request: maximum matching between the
+			// removed holders and the unlock requests for the key (bearing the LockId, or with the unlock-first flag) that
+			// have been sent and not refused
+			var cands []*aReq
+			for _, r := range e.reqs {
+				if r.Idx >= bFirstReq && r.Op.K == "unlock" && r.Op.Db == p.Db && r.Key == p.Key && (r.InFlight || (r.Terminal >= 0 && r.Replies[r.Terminal].Result == rSUCCED)) {
+					cands = append(cands, r)
+				}
+			}
+			rem := bRemoved[id]
+			matchOf := make([]int, len(cands)) // request index -> removed holder index + 1
+			var try func(hi int, seen []bool) bool
+			try = func(hi int, seen []bool) bool {
+				for ci, r := range cands {
+					if seen[ci] || (r.LockId != rem[hi].Id && r.Op.F&ufFIRST == 0) {
+						continue
+					}
+					seen[ci] = true
+					if matchOf[ci] == 0 || try(matchOf[ci]-1, seen) {
+						matchOf[ci] = hi + 1
+						return true
+					}
+				}
+				return false
+			}
+			for hi := range rem {
+				if !try(hi, make([]bool, len(cands))) {
+					return &aViolation{"C01,C17", fmt.Sprintf("key %s: the hold of LockId %x (request #%d, deadline in %d s) is gone although it has not expired and the unlock requests sent for that key (bearing a holder's LockId, or the unlock-first flag) do not account for all %d holders that left it", id, h.Id[:3], h.Req, h.ExpriedTime-e.now, len(rem))}
+				}
+			}
 		}
 	}
 	// STATE counters vs census
@@ -546,6 +621,41 @@ func bProp(test, prop string) func(t *rapid.T) {
 			c.Prefix.Ops = append(c.Prefix.Ops, aOp{K: "tick", N: rapid.IntRange(1, 2).Draw(t, "prefixTickN")})
 		}
 		nth := rapid.IntRange(2, 5).Draw(t, "threads")
+		if pct(t, "recycleScenario") < 10 || os.Getenv("VERIF_B_SCENARIO") == "recycle" {
+			// key-manager recycling under a stalled request: a request for key 0 is between its manager look-up and
+			// the shard mutex while key 0's last hold ends, a sweep recycles its manager and key 1 (unused so far)
+			// gets that manager; the stalled request must then start over, not act on key 1's state
+			nth = 0
+			*(&fresh)++
+			idH, idX := 200+fresh, 300+fresh
+			c.Prefix.Ops = []aOp{{K: "lock", C: 0, Key: 0, Id: idH, Cnt: 0, E: 30}}
+			stalled := aOp{K: "unlock", C: 0, Key: 0, Id: idX}
+			switch pct(t, "recycleStalled") % 3 {
+			case 1:
+				stalled.F |= ufFIRST
+			case 2:
+				stalled = aOp{K: "lock", C: 0, Key: 0, Id: idX, Cnt: 0, E: 30}
+			}
+			c.Threads = []bThread{
+				{Ops: []aOp{stalled}},
+				{Ops: []aOp{{K: "unlock", C: 1, Key: 0, Id: idH}}},
+				{Sweep: rapid.IntRange(1, 3).Draw(t, "recycleSweep")},
+			}
+			// key managers are handed out from a ring that is refilled in batches of 8: the recycled one comes back after
+			// the rest of its batch, so a run of fresh keys is locked (all with the stalled request's LockId)
+			var run []aOp
+			for k := 1; k <= rapid.IntRange(8, 12).Draw(t, "recycleKeys"); k++ {
+				run = append(run, aOp{K: "lock", C: 3, Key: k, Id: idX, Cnt: 0, E: 30})
+			}
+			c.Threads = append(c.Threads, bThread{Ops: run})
+			if pct(t, "recycleStall") < 75 {
+				c.Stall = 1
+			}
+			if pct(t, "recycleExtra") < 50 {
+				k := rapid.IntRange(6, 9).Draw(t, "recycleProbeKey")
+				c.Threads = append(c.Threads, bThread{Ops: []aOp{{K: "lock", C: 4, Key: k, Id: idX + 2000, Cnt: 0, T: 0, E: 30}}})
+			}
+		}
 		for i := 0; i < nth; i++ {
 			th := bThread{}
 			if i > 0 && pct(t, "sweeper") < 35 {
